@@ -11,6 +11,7 @@ package main
 import (
 	"fmt"
 	"runtime"
+	"runtime/debug"
 	"sort"
 	"strings"
 	"sync"
@@ -526,6 +527,8 @@ func replay(path string) {
 }
 
 func main() {
+	// every run allocates a fresh VM (about 100 KB of stack and frames): collect less often
+	debug.SetGCPercent(800)
 	installHook()
 	if p := report.ReplayArg(); p != "" {
 		replay(p)
